@@ -31,6 +31,9 @@ type compiler struct {
 	// typedefs being compiled, to detect a typedef that refers back to itself
 	inProgressTypedefs map[*Typedef]struct{}
 
+	// identities whose bases are being resolved, a chain of bases may not come back to one
+	inProgressIdentities map[*Identity]struct{}
+
 	// imported modules already visited, modules may import each other
 	imported map[*Module]struct{}
 }
@@ -228,6 +231,11 @@ func (c *compiler) identity(y *Identity) error {
 		return nil
 	}
 	y.base = make([]*Identity, 0, len(y.baseIds))
+	if c.inProgressIdentities == nil {
+		c.inProgressIdentities = make(map[*Identity]struct{})
+	}
+	c.inProgressIdentities[y] = struct{}{}
+	defer delete(c.inProgressIdentities, y)
 
 	// find all the derived identities
 	for _, baseId := range y.baseIds {
@@ -240,6 +248,10 @@ func (c *compiler) identity(y *Identity) error {
 		identity, found := m.Identities()[ident]
 		if !found {
 			return errors.New(SchemaPath(y) + " - " + baseId + " identity not found")
+		}
+		if _, circular := c.inProgressIdentities[identity]; circular {
+			// RFC7950 Sec 7.18.2
+			return errors.New(SchemaPath(y) + " - identity " + baseId + " is derived from itself")
 		}
 		y.base = append(y.base, identity)
 		identity.derived = append(identity.derived, y)
